@@ -17,6 +17,11 @@ Worker hand-over (thread server; forced interleaving, no timing luck): `["end", 
 `["connect", c2, True, "gated"]`: Pool.notify_done is wrapped so that the worker that served c is parked right after it has
 handed itself back to the pool; the second event has c2 accepted and dispatched (Pool.process returned) while the worker is
 parked, then lets the worker go.
+Targets: "S" session-mode class, "P" plain instance, "C" percall class.  A request on "S"/"C" may carry one more element,
+the id of a resource the class's CONSTRUCTOR tracks through current_context.track_resource if it runs for this request
+(["req", c, tgt, act, r, rc], ["raise", c, tgt, kind, rc], ["end", c, "cut", k, tgt, act, r, mode, rc]).
+act "stream": the method returns a generator (an item stream is registered in daemon.streaming_responses and left unexhausted).
+Optional case key "linger": value of config.ITER_STREAM_LINGER for the case (default 30.0; 0 = streams dropped at disconnect).
 Optional case key "faulty": {"<r>": "<exception class name>"}: close() of resource r raises that exception (after counting).
 """
 import contextlib, os, struct, sys, threading, time
@@ -116,10 +121,18 @@ class World:
         self.by_id = {}               # id(conn) -> cid
         self.res = [Res(i, self.log) for i in range(NRES)]
         self.inst_counter = [0]
+        self.ctor_res = None
         world = self
 
         def cid_of_ctx():
             return world.by_id.get(id(current_context.client))
+
+        def ctor_track():
+            # a constructor that tracks a resource for "its" connection (the harness says which resource, per request)
+            rc = world.ctor_res
+            if rc is not None:
+                world.log.append(("exec", cid_of_ctx(), "ctor", rc))
+                current_context.track_resource(world.res[rc])
 
         @api.expose
         class Mixin:
@@ -130,6 +143,8 @@ class World:
                 elif act == "untrack":
                     current_context.untrack_resource(world.res[r])
                 world.log.append(("exec", cid, act, r))
+                if act == "stream":
+                    return (i for i in range(3))      # left unexhausted by the client
                 return getattr(self, "iid", -1)
 
             def boom(self):
@@ -151,6 +166,13 @@ class World:
             def __init__(self):
                 world.inst_counter[0] += 1
                 self.iid = world.inst_counter[0]
+                ctor_track()
+
+        @api.expose
+        @api.behavior(instance_mode="percall")
+        class Per(Mixin):
+            def __init__(self):
+                ctor_track()
 
         @api.expose
         class Plain(Mixin):
@@ -171,6 +193,9 @@ class World:
         self.srv.daemon.clientDisconnect = lambda conn: world.log.append(("hook", world.by_id.get(id(conn))))
         self.srv.register(Sess, "S")
         self.srv.register(Plain(), "P")
+        self.srv.register(Per, "C")
+        from Pyro5 import config as _cfg
+        self._saved_linger = _cfg.ITER_STREAM_LINGER
         if stype == "thread":
             GATE.install()
         self.witness = None
@@ -219,6 +244,9 @@ class World:
     def stop(self):
         GATE.release()
         with contextlib.suppress(Exception):
+            from Pyro5 import config as _cfg
+            _cfg.ITER_STREAM_LINGER = self._saved_linger
+        with contextlib.suppress(Exception):
             if self.witness is not None:
                 self.witness.close()
         self.srv.stop()
@@ -257,6 +285,10 @@ def run_case(world, case):
     for rsc in w.res:
         nm = faulty.get(str(rsc.rid))
         rsc.fail = exc_class(nm) if nm else None
+    from Pyro5 import config as _cfg
+    _cfg.ITER_STREAM_LINGER = float(case.get("linger", 30.0))
+    w.srv.daemon.streaming_responses.clear()      # streams left over by earlier cases play no role
+    w.ctor_res = None
     w.conns.clear()
     w.by_id.clear()
     clients = {}                 # cid -> RawClient
@@ -377,6 +409,10 @@ def run_case(world, case):
         if w.timeout and w.stype == "thread":
             now = time.time()
             prev = watch["live"] if watch["kind"] != "timeout" else []
+            # a step (other than a deliberate timeout) that itself took that long may have let a connection it just
+            # created or touched time out before the observation was taken
+            if watch["kind"] not in (None, "timeout") and now - watch.get("t0", now) > 0.55 * COMMTIMEOUT:
+                valid = False
             for c in set(live()) | set(x for x in prev if x not in ended_client):
                 if now - last_act.get(c, now) > 0.55 * COMMTIMEOUT:
                     valid = False
@@ -384,7 +420,7 @@ def run_case(world, case):
     for ev in case["events"]:
         kind = ev[0]
         idle_guard()
-        watch["live"], watch["kind"] = live(), kind
+        watch["live"], watch["kind"], watch["t0"] = live(), kind, time.time()
         if kind in ("req", "raise", "end") and ev[1] not in accepted:
             # the daemon never completed this connection's handshake: nothing can be asked of it (the model ignores
             # events on such a connection as well); an "end" just closes the client socket
@@ -432,21 +468,26 @@ def run_case(world, case):
                 settle([c], expected_slots)
             snapshot("connect", {"accepted": acc})
         elif kind == "req":
-            _, c, tgt, act, r = ev
+            c, tgt, act, r = ev[1:5]
+            w.ctor_res = ev[5] if len(ev) > 5 else None
             cl = clients[c]
             cl.send(request_bytes(tgt, act, r, nextseq(c)))
             m = got_reply(cl.recv_msg())
+            w.ctor_res = None
             last_act[c] = time.time()
-            reply = "result" if isinstance(m, dict) and m["type"] == protocol.MSG_RESULT and not (m["flags"] & protocol.FLAGS_EXCEPTION) \
-                else ("error" if isinstance(m, dict) else str(m))
+            ok = isinstance(m, dict) and m["type"] == protocol.MSG_RESULT and (
+                not (m["flags"] & protocol.FLAGS_EXCEPTION) or (act == "stream" and m["flags"] & protocol.FLAGS_ITEMSTREAMRESULT))
+            reply = "result" if ok else ("error" if isinstance(m, dict) else str(m))
             settle([], expected_slots)
             snapshot("req", {"reply": reply})
         elif kind == "raise":
-            _, c, tgt, what = ev
+            c, tgt, what = ev[1:4]
+            w.ctor_res = ev[4] if len(ev) > 4 else None
             cl = clients[c]
             meth = {"plain": "boom", "security": "sec", "callback": "cbboom"}[what]
             cl.send(rd.invoke_msg(tgt, meth, (), seq=nextseq(c)))
             m = got_reply(cl.recv_msg())
+            w.ctor_res = None
             last_act[c] = time.time()
             reply = "error" if isinstance(m, dict) and (m["flags"] & protocol.FLAGS_EXCEPTION) else ("result" if isinstance(m, dict) else str(m))
             closed = expect_eof(c, 0.0 if what == "plain" else WAIT)
@@ -468,7 +509,8 @@ def run_case(world, case):
                 cl.reset()
                 ended_client.add(c)
             elif how == "cut":
-                _, _, _, k, tgt, act, r, mode = ev
+                k, tgt, act, r, mode = ev[3:8]
+                w.ctor_res = ev[8] if len(ev) > 8 else None      # cleared after the step has settled
                 data = request_bytes(tgt, act, r, nextseq(c))
                 cl.send(data[:k])
                 if k >= len(data) and mode == "close":
@@ -483,6 +525,7 @@ def run_case(world, case):
                 cl.send(badser_bytes(nextseq(c)))
                 expect_eof(c)
             settle([c], expected_slots)
+            w.ctor_res = None
             snapshot("end")
         elif kind == "timeout":
             _, c, k = ev
@@ -504,6 +547,7 @@ def run_case(world, case):
     idle_guard()
     # probe: every connection the daemon still holds open must still serve, with its own session instance
     probes = {}
+    w.ctor_res = None
     for c in sorted(live()):
         cl = clients[c]
         cl.send(rd.invoke_msg("S", "op", ("nop", 0), seq=nextseq(c)))
